@@ -251,7 +251,7 @@ func (gb GenBank) String() string {
 	for _, ref := range gb.Fields.References {
 		b.WriteString(fmt.Sprintf("REFERENCE   %d", ref.Number))
 		if ref.Info != "" {
-			pad := strings.Repeat(" ", 3-len(strconv.Itoa(ref.Number)))
+			pad := strings.Repeat(" ", gts.Max(0, 3-len(strconv.Itoa(ref.Number))))
 			b.WriteString(pad + ref.Info)
 		}
 		b.WriteByte('\n')
